@@ -38,7 +38,7 @@ theorem C15_cmap_lookup_kept (dirs : List Bytes) (name : Bytes) (h : ¬ 47 ∈ n
   rw [if_pos]
   simp only [plainFile, cmapFilename, stripNul, List.contains_eq_mem, List.mem_append, List.mem_filter,
     Bool.not_eq_eq_eq_not, Bool.not_true, decide_eq_false_iff_not, not_or]
-  refine ⟨fun hh => h hh.1, by decide⟩
+  refine ⟨⟨by decide, fun hh => h hh.1⟩, by decide⟩
 
 /-- Non-vacuity: the name `H` with the two usual directories. -/
 example : cmapProbes [[47, 117], [47, 118, 47]] [72] =
@@ -118,5 +118,15 @@ theorem C15_image_pinned_cex :
       (true, [[111], [120, 46, 98, 109, 112]]) ∧
     norm (imagePathPinned [47, 111, 47, 100] [47, 120] [46, 98, 109, 112]) = (true, [[120, 46, 98, 109, 112]]) := by
   constructor <;> decide +kernel
+
+/-- The Registry-Ordering route: `get_unicode_map` asks for `to-unicode-<cidcoding>`; whatever
+    the CIDSystemInfo strings are, the probed files stay inside the resource directories. -/
+theorem C15_unicode_map_confined (dirs : List Bytes) (cidcoding p : Bytes)
+    (hp : p ∈ cmapProbes dirs (unicodeMapName cidcoding)) : ∃ d ∈ dirs, DirectlyIn d p :=
+  C15_cmap_confined dirs _ p hp
+
+example : cmapProbes [[47, 117]] (unicodeMapName [65, 45, 66]) =
+    [[47, 117, 47, 116, 111, 45, 117, 110, 105, 99, 111, 100, 101, 45, 65, 45, 66, 46, 112, 105, 99, 107, 108, 101, 46, 103, 122]] := by
+  decide
 
 end PdfVerif.Props.C15
